@@ -711,6 +711,9 @@ class Interp:
             return UNIT
         if text in STD_CONSTS:
             return STD_CONSTS[text]
+        m = re.match(r'(?:core|std)::\w+::<impl (\w+)>::(\w+)$', text)
+        if m and f'{m.group(1)}::{m.group(2)}' in STD_CONSTS:
+            return STD_CONSTS[f'{m.group(1)}::{m.group(2)}']
         m = re.match(r'(.*)::promoted\[(\d+)\]$', text)
         if m:
             return self.promoted(body, int(m.group(2)))
